@@ -1,19 +1,47 @@
 pub mod c01;
+pub mod c02;
+pub mod c03;
+pub mod c04;
+pub mod c05;
+pub mod c06;
+pub mod c07;
+pub mod c08;
 pub mod hist;
 
 use crate::evidence::KnownFindings;
-use crate::util::RunCfg;
+use crate::interp::Opts;
+use crate::util::{Failure, RunCfg};
 use serde_json::Value;
 
-pub const ALL: &[&str] = &["C01"];
+pub const ALL: &[&str] = &["C01", "C02", "C03", "C04", "C05", "C06", "C07", "C08"];
 
 pub fn run(cfg: &RunCfg) -> i32 {
     match cfg.prop.as_str() {
         "C01" => c01::run(cfg),
+        "C02" => c02::run(cfg),
+        "C03" => c03::run(cfg),
+        "C04" => c04::run(cfg),
+        "C05" => c05::run(cfg),
+        "C06" => c06::run(cfg),
+        "C07" => c07::run(cfg),
+        "C08" => c08::run(cfg),
         other => {
             eprintln!("unknown property {other}");
             2
         }
+    }
+}
+
+/// the oracle configuration of the history based checks
+fn hist_opts(prop: &str) -> Option<Opts> {
+    match prop {
+        "C01" => Some(c01::opts()),
+        "C03" => Some(c03::opts()),
+        "C05" => Some(c05::opts()),
+        "C06" => Some(c06::opts()),
+        "C07" => Some(c07::opts()),
+        "C08" => Some(c08::opts()),
+        _ => None,
     }
 }
 
@@ -33,17 +61,25 @@ pub fn replay(prop: &str, file: &str) -> i32 {
             return 2;
         }
     };
-    let part = v["part"].as_str().unwrap_or("").to_owned();
+    let _part = v["part"].as_str().unwrap_or("").to_owned();
     let case = v["case"].clone();
     let strict = KnownFindings::default();
-    let res: Result<(), crate::util::Failure> = match prop {
-        "C01" => replay_history(&case, &c01::opts(), &strict, prop),
-        other => {
-            eprintln!("unknown property {other}");
-            return 2;
+    let res: Result<(), Failure> = if let Some(o) = hist_opts(prop) {
+        replay_history(&case, &o, &strict, prop)
+    } else {
+        match prop {
+            "C02" => serde_json::from_value::<c02::Case>(case.clone())
+                .map_err(|e| Failure::new("replay.parse", "a C02 case", e.to_string()))
+                .and_then(|c| c02::check_case(&c).map(|_| ())),
+            "C04" => serde_json::from_value::<c04::Pair>(case.clone())
+                .map_err(|e| Failure::new("replay.parse", "a pair", e.to_string()))
+                .and_then(|p| c04::run_pair(&p, &strict).map(|_| ())),
+            other => {
+                eprintln!("unknown property {other}");
+                return 2;
+            }
         }
     };
-    let _ = part;
     match res {
         Ok(()) => {
             println!("replay of {file}: passed");
@@ -57,7 +93,7 @@ pub fn replay(prop: &str, file: &str) -> i32 {
     }
 }
 
-pub fn replay_history(case: &Value, opts: &crate::interp::Opts, kfs: &KnownFindings, prop: &str) -> Result<(), crate::util::Failure> {
-    let h: crate::ops::History = serde_json::from_value(case.clone()).map_err(|e| crate::util::Failure::new("replay.parse", "a history", e.to_string()))?;
+pub fn replay_history(case: &Value, opts: &Opts, kfs: &KnownFindings, prop: &str) -> Result<(), Failure> {
+    let h: crate::ops::History = serde_json::from_value(case.clone()).map_err(|e| Failure::new("replay.parse", "a history", e.to_string()))?;
     hist::run_one(&h, opts, kfs, prop).map(|_| ())
 }
